@@ -35,7 +35,7 @@ class HistSim(Sim):
               "reuse_of_differentiated_node", "no_reset_between_calls", "reset_between_calls", "sweep_under_retain_ctx",
               "unreachable_tensor_with_grad", "fault_mid_sweep", "retry_after_fault", "rejected_backward", "repeat_same_root",
               "zero_via_tensor", "zero_via_module", "zero_via_optimizer", "forward_fault", "no_grad_span", "nonfinite_upstream_gradient", "same_op_same_geometry_by_second_user",
-              "optimizer_step_between_backward_calls", "step_without_reset_then_more_backward", "module_parameter_added_after_use", "module_parameter_replaced_after_use"]
+              "batch_norm_with_running_statistics", "same_batch_norm_layer_used_by_two_graphs", "optimizer_step_between_backward_calls", "step_without_reset_then_more_backward", "module_parameter_added_after_use", "module_parameter_replaced_after_use"]
     RULE = ("one run = a seeded history of build/backward/retain/reset/fault events over shared leaves; distinct = hash of the event-kind "
             "sequence with, per backward, the root's role (fresh/former root/former interior/leaf) and whether retained nodes were crossed; "
             "non-trivial = at least two accepted backward calls")
@@ -136,6 +136,10 @@ class HistSim(Sim):
             return {"k": "module_add", "id": st.next_id, "data": enc(small_values(rng, shape, np.float64, -2, 2, avoid_zero=True)),
                     "where": rng.choice(["root", "child", "grand"]), "replace": rng.random() < 0.4}
         if len(nodes) < 14:
+            if rng.random() < 0.06:
+                ev = self._gen_bn(rng, st)
+                if ev is not None:
+                    return ev
             if nodes and rng.random() < 0.1:
                 ev = self._gen_twin(rng, st, nodes)
                 if ev is not None:
@@ -147,11 +151,42 @@ class HistSim(Sim):
             return self._gen_backward(rng, st, rg_all)
         return self._gen_leaf(rng, st)
 
+    def _gen_bn(self, rng, st):
+        """batch norm with running statistics (buffers = leaves that do not require grad, updated in place by training forwards) and
+        affine parameters; often the SAME layer (buffers and parameters) is used by a second forward in the other mode before the first
+        graph is differentiated: the eval-mode graph must keep the statistics it was built with"""
+        xs = [i for i, t in st.T.items() if not st.meta[i].get("bn") and t.data.dtype.kind == "f" and t.data.ndim in (2, 3) and t.data.size and
+              t.data.size // t.data.shape[1] >= 2 and np.isfinite(t.data).all() and np.abs(t.data).max() < 64]
+        if not xs:
+            return None
+        x = rng.choice(xs)
+        c = st.T[x].data.shape[1]
+        dt = st.T[x].data.dtype
+        nid = st.next_id
+        act = rng.randrange(st.knobs["actors"])
+        evs = [{"k": "leaf", "id": nid, "data": enc(small_values(rng, (c,), dt, -1, 1)), "rg": False, "wrap": "tensor", "actor": act, "bn": True},
+               {"k": "leaf", "id": nid + 1, "data": enc(np.abs(small_values(rng, (c,), dt, -2, 2)) + 0.5), "rg": False, "wrap": "tensor", "actor": act, "bn": True}]
+        ins = [x, nid, nid + 1]
+        n = nid + 2
+        if rng.random() < 0.75:
+            evs.append({"k": "leaf", "id": n, "data": enc(small_values(rng, (c,), dt, -2, 2, avoid_zero=True)), "rg": True, "wrap": "param", "actor": act})
+            evs.append({"k": "leaf", "id": n + 1, "data": enc(small_values(rng, (c,), dt, -2, 2)), "rg": True, "wrap": "param", "actor": act})
+            ins += [n, n + 1]
+            n += 2
+        training = rng.random() < 0.5
+        evs.append({"k": "op", "op": "batch_norm_run", "in": ins, "args": {"training": training, "momentum": rng.choice([0.1, 0.5, 1.0])}, "out": [n], "actor": act})
+        if rng.random() < 0.6:
+            x2 = rng.choice([i for i in xs if st.T[i].data.shape[1] == c])
+            evs.append({"k": "op", "op": "batch_norm_run", "in": [x2] + ins[1:], "args": {"training": not training if rng.random() < 0.7 else training,
+                        "momentum": rng.choice([0.1, 1.0])}, "out": [n + 1], "actor": rng.randrange(st.knobs["actors"])})
+        st.pending.extend(evs[1:])
+        return evs[0]
+
     def _gen_twin(self, rng, st, nodes):
         """A second user issues an EARLIER operation again - same op, same arguments, same operand shapes/dtypes, other values -
         before (or after) the first graph is differentiated: anything the library keeps per geometry rather than per call would be shared."""
         src = st.meta[rng.choice(nodes)]["ev"]
-        if any(i not in st.T for i in src["in"]) or src["op"] in ("unbind",):
+        if any(i not in st.T for i in src["in"]) or src["op"] in ("unbind", "batch_norm_run"):
             return None
         evs, twin, nid = [], {}, st.next_id
         for i in src["in"]:
@@ -188,7 +223,7 @@ class HistSim(Sim):
                 "wrap": "param" if rng.random() < 0.4 else "tensor", "actor": rng.randrange(kn["actors"])}
 
     def _gen_op(self, rng, st):
-        pool = [ops.Ref(i, t) for i, t in st.T.items()]
+        pool = [ops.Ref(i, t) for i, t in st.T.items() if not st.meta[i].get("bn")]
         pool = [r for r in pool if r.finite and r.mag <= 64]
         if len(pool) > 6 and rng.random() < 0.7:
             # bias towards recent results and leaves
@@ -363,10 +398,11 @@ class HistSim(Sim):
                 clones = {}
                 done_ev = {}
 
-                def operand(j):
+                def operand(j, ev=None):
                     m = st.meta[j]
                     if m["kind"] == "leaf":
-                        c = SG.Tensor(st.T[j].data.copy(), requires_grad=m["rg"])
+                        frozen = getattr(st, "op_snap", {}).get(id(ev), {}) if ev is not None else {}
+                        c = SG.Tensor((frozen[j] if j in frozen else st.T[j].data).copy(), requires_grad=m["rg"])
                         if m["rg"]:
                             clones.setdefault(j, []).append(c)
                         return c
@@ -382,7 +418,7 @@ class HistSim(Sim):
                     ev = m["ev"]
                     key = id(ev)
                     if key not in done_ev:
-                        done_ev[key] = ops.as_list(ops.apply_op(SG, ev["op"], [operand(j) for j in ev["in"]], ev["args"]))
+                        done_ev[key] = ops.as_list(ops.apply_op(SG, ev["op"], [operand(j, ev) for j in ev["in"]], ev["args"]))
                     fresh[i] = done_ev[key][m["k"]]
                 gt = None if g is None else SG.Tensor(g.copy())
                 rt = operand(root) if st.meta[root]["kind"] == "leaf" else fresh[root]
@@ -421,7 +457,7 @@ class HistSim(Sim):
         i = ev["id"]
         st.T[i] = t
         # (a tensor created inside a no_grad span does not require grad whatever was asked: C07's clause, taken as given here)
-        st.meta[i] = {"kind": "leaf", "rg": bool(ev["rg"]) and st.nograd_ctx is None, "inputs": [], "wrap": ev["wrap"]}
+        st.meta[i] = {"kind": "leaf", "rg": bool(ev["rg"]) and st.nograd_ctx is None, "inputs": [], "wrap": ev["wrap"], "bn": bool(ev.get("bn"))}
         st.ledger[i] = None
         st.abs[i] = 0.0
         st.next_id = max(st.next_id, i + 1)
@@ -543,6 +579,14 @@ class HistSim(Sim):
             return
         xs = [st.T[i] for i in ev["in"]]
         fault = ev.get("fault")
+        if ev["op"] == "batch_norm_run":
+            # the running statistics this forward is built with (a later training forward of the same layer moves them on)
+            if not hasattr(st, "op_snap"):
+                st.op_snap = {}
+            st.op_snap[id(ev)] = {j: st.T[j].data.copy() for j in ev["in"][1:3]}
+            st.probes["batch_norm_with_running_statistics"] += 1
+            if any(st.meta[o]["kind"] == "node" and st.meta[o]["ev"]["op"] == "batch_norm_run" and st.meta[o]["ev"]["in"][1] == ev["in"][1] for o in st.T if o in st.meta):
+                st.probes["same_batch_norm_layer_used_by_two_graphs"] += 1
         snap = self._snapshot(st, list(st.T)) if fault else None
         if fault:
             SEAM.arm_spec(fault)
